@@ -203,6 +203,18 @@ def run_job(job, rec):
                 rec.check(abs((cg[1] - cg[0]) - integ) <= tol_int,
                           "cdf-not-integral-of-pdf", lambda: f"cdf({b!r}) - cdf({a!r}) = {cg[1] - cg[0]!r} but the density integrates to {integ!r}", rec.context)
 
+        # history: the same query array modified in place and passed again
+        qq = q.copy()
+        guarded(kde, qq)
+        guarded(kde.cdf, qq)
+        qq += 0.37 * h
+        p_again, c_again = guarded(kde, qq), guarded(kde.cdf, qq)
+        p_fresh, c_fresh = guarded(kde, qq.copy()), guarded(kde.cdf, qq.copy())
+        rec.count("in_place_query_updates")
+        oka = not any(isinstance(v, Raised) for v in (p_again, c_again, p_fresh, c_fresh)) and np.array_equal(p_again, p_fresh) and np.array_equal(c_again, c_fresh) \
+            and not np.array_equal(np.asarray(p_again), pdf)
+        rec.check(oka, "stale-after-in-place-update", "evaluating the same query array after modifying it in place gives results for other points", rec.context)
+
         # order of the evaluation points, and scalar vs array
         perm = rng.permutation(q.size)
         pp = guarded(kde, q[perm])
